@@ -27,9 +27,12 @@ func DecodeMapped(v []byte) (ip []byte, port int, err error) {
 	if len(v) < 4 {
 		return nil, 0, ErrBad
 	}
+	// "valid" means as an RFC encoder produces it: leading byte zero. RFC 5389
+	// tells receivers to ignore that byte; whether a receiver tolerates a
+	// non-zero one is not asserted by any property.
 	switch {
-	case v[1] == FamilyV4 && len(v) == 8:
-	case v[1] == FamilyV6 && len(v) == 20:
+	case v[0] == 0 && v[1] == FamilyV4 && len(v) == 8:
+	case v[0] == 0 && v[1] == FamilyV6 && len(v) == 20:
 	default:
 		return nil, 0, ErrBad
 	}
@@ -60,8 +63,8 @@ func DecodeXor(v []byte, tid [12]byte) (ip []byte, port int, err error) {
 		return nil, 0, ErrBad
 	}
 	switch {
-	case v[1] == FamilyV4 && len(v) == 8:
-	case v[1] == FamilyV6 && len(v) == 20:
+	case v[0] == 0 && v[1] == FamilyV4 && len(v) == 8:
+	case v[0] == 0 && v[1] == FamilyV6 && len(v) == 20:
 	default:
 		return nil, 0, ErrBad
 	}
